@@ -50,7 +50,7 @@ def worker_init():
 
 def cases(seed, tier):
     rng = random.Random(f"C04:{seed}")
-    n = 500 if tier == "quick" else 30000
+    n = 1200 if tier == "quick" else 30000
     out = []
     # corpus: a long schedule submitted in the very last period of the run (queue already empty)
     ev = {"t": "EVSE", "max": 32, "min": 0}
